@@ -74,8 +74,8 @@ def param_domains(m, cls, label_prefix=""):
             doms.append((nm, [("", (lambda nm: lambda s: Sym("param:" + nm))(nm))]))
         elif nm == "_dagger":
             alts = [("", lambda s: False), ("daggered", lambda s: True)]
-            if "is None" in dag_src or "is None" in src:
-                alts.append(("hermitian", lambda s: None))
+            if "is None" in dag_src or "is None" in src or cls.mod == "discopy.quantum.gates":
+                alts.append(("hermitian", lambda s: None))          # gates flagged self-adjoint (X, Z, H, CZ are built with _dagger=None)
             doms.append((nm, alts))
         elif isinstance(d, ast.Constant) and isinstance(d.value, bool):
             doms.append((nm, [("%s=%s" % (nm, v), (lambda v: lambda s: v)(v)) for v in (False, True)]))
